@@ -388,9 +388,14 @@ def setup_repo(src=None):
     return src
 
 
+QUICK_BOOST = 2.0  # the quick tier runs on 8 processes: twice the case counts stated in the property modules
+
+
 def get_tests(prop, tier):
     tests = prop.tests(tier)
     scale = float(os.environ.get("VERIF_SCALE", "1") or 1)
+    if tier == "quick":
+        scale *= QUICK_BOOST
     if scale != 1:
         for t in tests:
             t.n = {k: max(1, int(v * scale)) for k, v in t.n.items()}
@@ -489,7 +494,7 @@ def main(argv=None):
 
     os.environ["VERIF_SCALE"] = str(a.scale)
     tests = get_tests(prop, tier)
-    nshards = a.workers or (4 if tier == "quick" else 16)
+    nshards = a.workers or (8 if tier == "quick" else 16)
     cols = [Collector() for _ in tests]
     n_replays = run_replays(prop, tier, cols)
     jobs = []
